@@ -439,6 +439,10 @@ func (agent *DCPAgent) OpenStream(vbID uint16, flags memd.DcpStreamAddFlag, vbUU
 		if vb.stream != nil && vb.stream.open {
 			return nil, kvErr(ErrDocumentExists, memd.StatusKeyExists, "")
 		}
+		// the protocol requires snap_start <= start <= snap_end (a producer answers anything else with ERANGE)
+		if uint64(startSeqNo) < uint64(snapStartSeqNo) || uint64(startSeqNo) > uint64(snapEndSeqNo) {
+			return nil, kvErr(errors.New("range error: start seqno outside its snapshot"), memd.StatusRangeError, "")
+		}
 		// a start position the server has not reached cannot be served
 		if uint64(startSeqNo) > vb.High && uint64(startSeqNo) != 0 {
 			return nil, kvErr(errors.New("range error"), memd.StatusRangeError, "")
